@@ -1591,7 +1591,7 @@ Module C09Example.
     apply (C09_run Z (list meta) ex_exec ex_eval ex_emit ex_chart ex_ops
              (init_istate 0 0 false 0%Z) (init_istate 0 0 true 0%Z) [] [] [] (fst ra) (snd ra)).
     - split; [constructor; reflexivity|]. split; reflexivity.
-    - exact (surjective_pairing ra).
+    - vm_compute. reflexivity.
     - apply Forall_forall. intros r Hin.
       assert (H := ex_no_error). rewrite forallb_forall in H. specialize (H r Hin).
       destruct r; [exact I|discriminate].
